@@ -462,6 +462,14 @@ func connTokens(q Q, r *rand.Rand) string {
 		}
 		out = append(out, n)
 	}
+	// the names may come on a Connection line of their own, after a harmless first line: every line counts
+	// (httputil.ReverseProxy drops what ANY of them names)
+	switch r.Intn(3) {
+	case 0:
+		return "close\r\nConnection: " + strings.Join(out[1:], pick(r, ", ", ","))
+	case 1:
+		return pick(r, "keep-alive", "", "Keep-Alive") + "\r\nConnection: close\r\nConnection: " + strings.Join(out[1:], pick(r, ", ", ","))
+	}
 	return strings.Join(out, pick(r, ", ", ","))
 }
 
